@@ -14,7 +14,7 @@
 From HV Require Import Proto.RaftNet Proto.PRaftLocal Proto.PRaftElection Proto.PRaftRefine Proto.PRaftLeader
   Proto.PRaftWf Proto.PRaftLog Proto.PRaftLogRefine Proto.PRaftSms Proto.PRaftLogTerms Proto.PRaftExamples
   Proto.PRaftLC Proto.PRaftLC2 Proto.PRaftLC3 Proto.PRaftLC4 Proto.PRaftLC5.
-From HV Require Proto.PaxosModel Proto.PPaxos Proto.PaxosCheck Proto.PPaxosRecommit.
+From HV Require Proto.PaxosModel Proto.PPaxos Proto.PaxosCheck Proto.PPaxosRecommit Proto.PPaxosAcceptor.
 
 Definition C40_raft_sms (n : N) : Prop := C40_raft_sms_stmt n.
 
@@ -222,3 +222,42 @@ Theorem C40_paxos_recommit_obeys_pick : forall f bal logs o, In o (PaxosCheck.px
   snd (fst o) = bal /\ PaxosCheck.pick_ok_b logs (fst (fst o)) (snd o) = true.
 Proof. exact PPaxosRecommit.px_recommit_obeys_pick. Qed.
 Print Assumptions C40_paxos_recommit_obeys_pick.
+
+(* ------------------------------------------------------------------ Paxos: the transcribed program *)
+(* FINDING (refuted on the faithful model, replayed on the real proposer node on every run):
+   the proposer's sequencing as wired by paxos_core (PaxosCheck.seq_run: recommit + index_payloads
+   with the election quorum's logs visible in every tick) proposes two different values for the same
+   (ballot, slot) -- the abstract system's P2a freshness (invariant i2) does not hold of the program.
+   Witness: quorum logs {0 -> ((3,1),7)} twice, ballot (4,0), payload 100 in one tick and 102 in
+   the next: both get slot 1. *)
+Theorem C40_paxos_slot_reuse_refuted :
+  exists f bal logs ticks, PaxosCheck.one_value_per_slot (PaxosCheck.seq_run f bal logs 0 ticks) = false.
+Proof.
+  exists 1, (4, 0), [(None, [(0, (3, 1), Some 7)]); (None, [(0, (3, 1), Some 7)])], [[]; [100]; [102]].
+  vm_compute. reflexivity.
+Qed.
+Print Assumptions C40_paxos_slot_reuse_refuted.
+
+(* The ACCEPTOR node of paxos_core (PaxosCheck.acc_tick: acceptor_p1 + acceptor_p2 as wired, one step
+   per tick; compared with the real node -- paxos_core compiled for the acceptor location -- on scripted
+   per-tick message batches on every run) refines the abstract system proved safe above: a tick on
+   any batches of p1a / p2a messages that were really sent is a sequence of abstract P1b / P2b steps
+   of that acceptor, every Ok p1b reply is an abstract p1b message and every Ok p2b reply an abstract
+   vote afterwards.  (For this the abstract P1b had to be generalised: the Hydro acceptor's log is
+   not "its votes below b" but any list of sent proposals covering its votes -- PaxosModel.report_ok --
+   and it stores proposals above its promise without promising; C40_paxos_safety is proved for the
+   generalised system.)  Not modelled: checkpoints (log truncation). *)
+Theorem C40_paxos_acceptor_refines : forall n a p st p1as p2as st' o1 o2,
+  a < n -> PPaxosAcceptor.R p a st ->
+  (forall b, In b p1as -> In (PPaxosAcceptor.enc b) (PaxosModel.m1a p) /\ PPaxosAcceptor.bwf b) ->
+  (forall sd b s v, In (sd, b, s, v) p2as ->
+     In (PPaxosAcceptor.enc b, s, PPaxosAcceptor.encv v) (PaxosModel.m2a p) /\ PPaxosAcceptor.bwf b) ->
+  PaxosCheck.acc_tick st p1as p2as = (st', o1, o2) ->
+  exists p', PaxosModel.psteps n p p' /\ PPaxosAcceptor.R p' a st' /\ PPaxosAcceptor.frame a p p' /\
+    (forall to b lg, In (to, b, inl lg) o1 -> In (a, PPaxosAcceptor.enc b, PPaxosAcceptor.enc_log lg) (PaxosModel.m1b p')) /\
+    (forall to s b, In (to, s, b, None) o2 -> exists v, In (a, s, PPaxosAcceptor.enc b, v) (PaxosModel.votes p')).
+Proof. exact PPaxosAcceptor.acc_tick_refines. Qed.
+Print Assumptions C40_paxos_acceptor_refines.
+
+Example C40_paxos_acceptor_nonvacuous : PPaxosAcceptor.R PaxosModel.p_init 0 PaxosCheck.acc_init.
+Proof. apply PPaxosAcceptor.R_init. Qed.
